@@ -48,7 +48,14 @@ type Node struct {
 }
 
 func (s *Node) Merge(other *Node) {
-	s.Kinds = s.Kinds.Add(other.Kinds...)
+	for _, otherKind := range other.Kinds {
+		// A kind deleted on this instance stays deleted unless other explicitly added it
+		if s.DeletedKinds.ContainsOneOf(otherKind) && !other.AddedKinds.ContainsOneOf(otherKind) {
+			continue
+		}
+
+		s.Kinds = s.Kinds.Add(otherKind)
+	}
 
 	for _, otherKind := range other.AddedKinds {
 		s.DeletedKinds = s.DeletedKinds.Remove(otherKind)
